@@ -326,3 +326,82 @@ func enclosingTop(f *ssa.Function) *ssa.Function {
 	}
 	return f
 }
+
+var nonNilMemo = map[*ssa.Function]bool{}
+
+// alwaysNonNil: a single-result function every return of which yields a freshly
+// allocated (hence non-nil) value - the constructor idiom `return &T{...}`.
+func alwaysNonNil(fn *ssa.Function) bool {
+	if fn == nil || fn.Blocks == nil || fn.Signature.Results().Len() != 1 {
+		return false
+	}
+	if r, ok := nonNilMemo[fn]; ok {
+		return r
+	}
+	nonNilMemo[fn] = false
+	ok := true
+	n := 0
+	eachInstr(fn, func(in ssa.Instruction) {
+		r, isRet := in.(*ssa.Return)
+		if !isRet {
+			return
+		}
+		n++
+		switch v := r.Results[0].(type) {
+		case *ssa.Alloc, *ssa.MakeMap, *ssa.MakeChan, *ssa.MakeSlice, *ssa.MakeClosure:
+		case *ssa.MakeInterface:
+			_ = v
+		default:
+			ok = false
+		}
+	})
+	nonNilMemo[fn] = ok && n > 0
+	return ok && n > 0
+}
+
+// isFreshLocal: v denotes an object allocated in the same function (a composite literal
+// or new), possibly reached through a local cell or phi that only ever holds such objects.
+func isFreshLocal(v ssa.Value) bool {
+	return isFreshLocalD(v, map[ssa.Value]bool{})
+}
+
+func isFreshLocalD(v ssa.Value, seen map[ssa.Value]bool) bool {
+	if seen[v] {
+		return true
+	}
+	seen[v] = true
+	switch x := v.(type) {
+	case *ssa.Alloc:
+		return true
+	case *ssa.MakeSlice, *ssa.MakeMap, *ssa.MakeChan:
+		return true
+	case *ssa.ChangeType:
+		return isFreshLocalD(x.X, seen)
+	case *ssa.Phi:
+		for _, e := range x.Edges {
+			if !isFreshLocalD(e, seen) {
+				return false
+			}
+		}
+		return true
+	case *ssa.UnOp:
+		if x.Op != token.MUL {
+			return false
+		}
+		cell, ok := x.X.(*ssa.Alloc)
+		if !ok || cell.Referrers() == nil {
+			return false
+		}
+		n := 0
+		for _, r := range *cell.Referrers() {
+			if st, ok := r.(*ssa.Store); ok && st.Addr == cell {
+				n++
+				if !isFreshLocalD(st.Val, seen) {
+					return false
+				}
+			}
+		}
+		return n > 0
+	}
+	return false
+}
